@@ -322,6 +322,9 @@ type iavlIterator struct {
 	// Close this to signal that state is initialized.
 	initCh chan struct{}
 
+	// Closed by iterateRoutine when it has stopped walking the tree.
+	doneCh chan struct{}
+
 	//----------------------------------------
 	// What follows are mutable state.
 	mtx sync.Mutex
@@ -345,6 +348,7 @@ func newIAVLIterator(tree *iavl.ImmutableTree, start, end []byte, ascending bool
 		iterCh:    make(chan cmn.KVPair), // Set capacity > 0?
 		quitCh:    make(chan struct{}),
 		initCh:    make(chan struct{}),
+		doneCh:    make(chan struct{}),
 	}
 	go iter.iterateRoutine()
 	go iter.initRoutine()
@@ -353,6 +357,7 @@ func newIAVLIterator(tree *iavl.ImmutableTree, start, end []byte, ascending bool
 
 // Run this to funnel items from the tree to iterCh.
 func (iter *iavlIterator) iterateRoutine() {
+	defer close(iter.doneCh)
 	iter.tree.IterateRange(
 		iter.start, iter.end, iter.ascending,
 		func(key, value []byte) bool {
@@ -423,6 +428,9 @@ func (iter *iavlIterator) Value() []byte {
 // Implements types.Iterator.
 func (iter *iavlIterator) Close() {
 	close(iter.quitCh)
+	// The routine notices quitCh only when it reaches the next item; until then it keeps walking the tree. Wait for
+	// it, so that no goroutine reads tree nodes while the caller goes on to write to the store or to commit it.
+	<-iter.doneCh
 }
 
 //----------------------------------------
